@@ -9,11 +9,15 @@
 (*    uncompressed file, a dtype without Python objects, m # None;         *)
 (*  - when an array passed to a process worker is memory-mapped:           *)
 (*    nbytes > max_nbytes, no Python objects (or it is memmap-backed).     *)
+(*  - array subclasses: joblib's own array record is written for exactly   *)
+(*    ndarray, matrix and memmap objects; every other subclass (recarray,   *)
+(*    masked array, user classes) is pickled by numpy's own __reduce__,     *)
+(*    its bytes live inside the pickle stream and are never memory-mapped.  *)
 (* Bit-exactness is decided by comparison with the original array, not     *)
 (* here.  TLC enumerates the cases with the dictated flags.                *)
 (***************************************************************************)
 EXTENDS Integers, Sequences, FiniteSets, TLC, Json
-CONSTANTS A, MaxPos, DTypes, Shapes, Layouts, Compressors, MmapModes, Containers
+CONSTANTS A, MaxPos, DTypes, Shapes, Layouts, Compressors, MmapModes, Containers, Classes
 
 Pad(pos) == A - ((pos + 1) % A)
 DataOffset(pos) == pos + 1 + Pad(pos)
@@ -23,14 +27,25 @@ ReaderOffset(pos) == pos + 1 + Pad(pos)
 Aligned == \A pos \in 0..MaxPos : DataOffset(pos) % A = 0 /\ Pad(pos) \in 1..A /\ ReaderOffset(pos) = DataOffset(pos)
 
 HasObject(d) == d = "object"
-MayMemmap(d, comp, mode) == comp = "none" /\ ~HasObject(d) /\ mode # "None"
+Wrapped(cls) == cls \in {"ndarray", "matrix"}
+MayMemmap(d, comp, mode, cls) == comp = "none" /\ ~HasObject(d) /\ mode # "None" /\ Wrapped(cls)
+Records == {"record", "mixed_endian_record", "packed5"}
+\* which (class, dtype, shape, layout) combinations exist at all
+ClassOK(cls, d, sh, lay) ==
+  \/ cls = "ndarray"
+  \/ /\ lay = "C"
+     /\ CASE cls = "matrix" -> sh \in {"mat", "bigmat", "empty2d"}
+          [] cls = "recarray" -> d \in Records
+          [] cls = "masked" -> ~HasObject(d)
+          [] OTHER -> TRUE
 
-VARIABLES d, sh, lay, comp, mode, cont
-vars == <<d, sh, lay, comp, mode, cont>>
-Init == d \in DTypes /\ sh \in Shapes /\ lay \in Layouts /\ comp \in Compressors /\ mode \in MmapModes /\ cont \in Containers
+VARIABLES d, sh, lay, comp, mode, cont, cls
+vars == <<d, sh, lay, comp, mode, cont, cls>>
+Init == d \in DTypes /\ sh \in Shapes /\ lay \in Layouts /\ comp \in Compressors /\ mode \in MmapModes /\ cont \in Containers /\ cls \in Classes
 Next == UNCHANGED vars
 \* memory maps are only asked for on uncompressed files in the enumeration of interest
-Interesting == (mode # "None" => comp \in {"none", "zlib"}) /\ (lay = "memmap" => d # "object")
-Emit == Interesting => PrintT(ToJson([dtype |-> d, shape |-> sh, layout |-> lay, compress |-> comp, mmap_mode |-> mode, container |-> cont,
-                                      memmap |-> MayMemmap(d, comp, mode)]))
+Interesting == (mode # "None" => comp \in {"none", "zlib"}) /\ (lay = "memmap" => d # "object") /\ ClassOK(cls, d, sh, lay)
+               /\ (cls # "ndarray" => cont # "dict")
+Emit == Interesting => PrintT(ToJson([dtype |-> d, shape |-> sh, layout |-> lay, compress |-> comp, mmap_mode |-> mode, container |-> cont, class |-> cls,
+                                      memmap |-> MayMemmap(d, comp, mode, cls)]))
 =============================================================================
